@@ -279,6 +279,39 @@ def stream(check, S, programs, name='extract', tmp=None, batch=40):
     return stats
 
 
+# --------------------------------------------------------------------------- layout pairs (C13 at extractor level)
+
+def layout_pairs(pairs):
+    """pairs: [(src1, src2)], two layouts of one program (identical ast.dump).  For each pair the driver evaluates
+    `layoutPairOK` (lean/SuppModel/Extract/LayoutPair.lean) on the two serialised trees, in both directions - the
+    conclusion of `extract_C13` (equal tables at corresponding Name nodes) is symmetric, and a position shared by two
+    nodes in one layout only (`x` / `(x)`) makes the position map a function in one direction only.
+    -> [{'ok': bool, 'direction': 'forward' | 'reverse' | None, 'forward': reply, 'reverse': reply}]"""
+    reqs = []
+    for a, b in pairs:
+        t1, t2 = ser(ast.parse(a)), ser(ast.parse(b))
+        reqs.append({'op': 'layoutPair', 'ast1': t1, 'ast2': t2})
+        reqs.append({'op': 'layoutPair', 'ast1': t2, 'ast2': t1})
+    reps = common.ask_driver(reqs, exe=DRIVER)
+    out = []
+    for i in range(0, len(reps), 2):
+        f, r = reps[i], reps[i + 1]
+        d = 'forward' if f.get('ok') else 'reverse' if r.get('ok') else None
+        out.append({'ok': d is not None, 'direction': d, 'forward': f, 'reverse': r})
+    return out
+
+
+def mark_pairs(cases, mark_len=13):
+    """cases: [(src, marked_src, (line, col))] - a source, the text supp analyses for a cursor at (line, col)
+    (`Source(src, fname, position).source`), the cursor.  The driver checks that the REAL marked tree is `markTree`
+    (lean/SuppModel/Extract/Rename.lean) of the real unmarked tree for exactly one renamed `Name`, and evaluates
+    `markOK` - the hypotheses of `C12_mark_transparent`.  -> the replies:
+    {'ok', 'p', 'newId', 'equal', 'renQ', 'layoutPair', 'cursorOK', 'nameFixed'} or {'ok': False, 'why': ...}"""
+    reqs = [{'op': 'markPair', 'ast': ser(ast.parse(a)), 'marked': ser(ast.parse(m)), 'cursor': list(pos), 'mark_len': mark_len}
+            for a, m, pos in cases]
+    return common.ask_driver(reqs, exe=DRIVER)
+
+
 # --------------------------------------------------------------------------- corpora
 
 SPECIALS = [
